@@ -1,5 +1,6 @@
 import SFV.Lemmas.TokenStore
 import SFV.Lemmas.PersistDeps
+import SFV.Lemmas.WorkflowStore
 import SFV.Gen.Persist
 /-! # C08 — saving then loading a workflow reproduces it exactly
 
@@ -104,5 +105,57 @@ def exTok : Tok :=
 
 example : Wf .tok exTok := by simp [exTok, Wf]
 example : load 10 (save .tok exTok ⟨fun _ => none, 1⟩).1 6 = some exTok ∧ recoverable exTok = false := by decide +kernel
+
+/-! ### the whole workflow (`SFV/Model/WorkflowStore.lean`) -/
+
+section WholeWorkflow
+open SFV.WfStore
+
+/-- **`load (save w) = w` for a whole workflow**: for every database state, every workflow that has not been saved yet, whose
+steps mention only ports of the workflow and are connected to a port at most once (the key of the `dependency` table):
+`Workflow.save` followed by `Workflow.load` of the returned id gives back the workflow — every port, every step with its params
+(port references resolved to the same ports), `input_ports` and `output_ports` — with the row ids `save` assigned as
+`persistent_id`s; erasing the ids gives the original. -/
+theorem load_save_workflow (db : WfStore.DB) (w : WF) (hdb : db.ok) (hf : w.fresh) (hw : w.wf) :
+    loadWf (saveWf db w).1 db.next = some (saveWf db w).2 ∧ (saveWf db w).2.pid = some db.next ∧ (saveWf db w).2.noIds = w := by
+  rw [saveWf_eq db w hdb hf hw]
+  exact ⟨loadWf_saved db w hdb hw, rfl, savedWF_noIds db w hf⟩
+
+/-- the database invariant is kept, so the theorem applies again to the next workflow saved into the same database -/
+theorem save_keeps_db_ok (db : WfStore.DB) (w : WF) (hdb : db.ok) (hf : w.fresh) (hw : w.wf) : (saveWf db w).1.ok := by
+  rw [saveWf_eq db w hdb hf hw]
+  exact savedDB_ok db w hdb
+
+/-- **The deep-copy builder reproduces the structure and carries no persistent id over.** -/
+theorem builder_copy_no_ids (db : WfStore.DB) (w : WF) (hdb : db.ok) (hf : w.fresh) (hw : w.wf) :
+    ∃ c, copyWf (saveWf db w).1 db.next = some c ∧ c = w ∧
+      c.pid = none ∧ (∀ p ∈ c.ports, p.pid = none) ∧ (∀ s ∈ c.steps, s.pid = none) := by
+  obtain ⟨h1, _, h3⟩ := load_save_workflow db w hdb hf hw
+  refine ⟨w, ?_, rfl, hf.1, hf.2.1, hf.2.2⟩
+  simp only [copyWf, h1, Option.map_some, h3]
+
+def w0 : WF :=
+  { name := "wf", params := [("config", 7)],
+    ports := [⟨"in", "Port", [], none⟩, ⟨"jobs", "JobPort", [], none⟩, ⟨"out", "Port", [("p", 1)], none⟩],
+    steps := [⟨"sched", "ScheduleStep", 0, [("job_prefix", .plain 3)], [], [("__job__", "jobs")], none⟩,
+              ⟨"exec", "ExecuteStep", 4, [("job_port", .port "jobs")], [("x", "in"), ("__job__", "jobs")], [("y", "out")], none⟩],
+    pid := none }
+
+/-- not vacuous: a concrete workflow, saved after another one, round-trips with ids 6.. and the copy equals the original -/
+example :
+    let db := (saveWf WfStore.DB.empty w0).1
+    loadWf (saveWf db w0).1 db.next = some (saveWf db w0).2 ∧ copyWf (saveWf db w0).1 db.next = some w0 ∧
+      ((saveWf db w0).2.steps.map (·.pid)) = [some 11, some 12] := by
+  decide
+
+/-- the hypothesis is needed: a step connected to the same port as input AND output loses one of the two connections
+(`INSERT OR IGNORE`, key `(step, port)`) -/
+example :
+    let w1 : WF := { name := "wf", params := [], ports := [⟨"p", "Port", [], none⟩],
+                     steps := [⟨"s", "Step", 0, [], [("a", "p")], [("b", "p")], none⟩], pid := none }
+    copyWf (saveWf WfStore.DB.empty w1).1 1 ≠ some w1 := by
+  decide
+
+end WholeWorkflow
 
 end SFV.C08
